@@ -52,9 +52,11 @@ def check_assignment(res, case, m, names, card, labels, q):
 
 
 def gen_map(rng, tier):
-    case = c01.gen_dup(rng, tier) if rng.random() < .35 else c01.gen_query(rng, tier)
+    r_ = rng.random()
+    case = c01.gen_dup(rng, tier) if r_ < .3 else (c01.gen_virtual(rng, tier) if r_ < .5 else c01.gen_query(rng, tier))
     if case is None:
         return None
+    case["virt"] = [vl for vl in case.get("virt", []) if vl[0] not in case["q"]]
     case["order"] = rng.choice(["MinFill", "MinNeighbors", "MinWeight", "WeightedMinFill", None, "explicit"])
     case["warm"] = rng.random() < .3
     if case["order"] == "explicit":
@@ -70,17 +72,36 @@ def run_map(case, drv):
     from pgmpy.inference import VariableElimination
     names, card, labels = case["nodes"], case["card"], case["labels"]
     pn = [gen.lab(x) for x in names]
-    m = c01.model_posterior(case, drv)
+    virt = case.get("virt", [])
+    m = c01.model_posterior(case, drv, extra=[{"scope": [v], "card": [card[v]], "vals": L} for v, L in virt])
     if Fraction(m["pe"]) == 0:
         return skip("P(evidence) = 0")
     bn = gen.bn_to_pgmpy(case)
+    vkw = {}
+    if virt:
+        from pgmpy.factors.discrete import TabularCPD
+
+        def vcpds(shift):
+            out = []
+            for v, L in virt:
+                LL = L[shift % len(L):] + L[:shift % len(L)]
+                out.append(TabularCPD(pn[v], card[v], [[float(Fraction(x))] for x in LL],
+                                      state_names={pn[v]: [gen.lab(l) for l in labels[v]]}))
+            return out
+        vkw = {"virtual_evidence": vcpds(0)}
     order = case["order"]
     if order == "explicit":
         order = [pn[v] for v in case["explicit"]]
     evidence = {pn[v]: gen.lab(labels[v][i]) for v, i in case["ev"]}
-    tags = dict(order=str(case["order"]), shape=case["shape"], n=len(names), nev=len(case["ev"]))
+    tags = dict(order=str(case["order"]), shape=case["shape"], n=len(names), nev=len(case["ev"]), virt=len(virt), warm=bool(case.get("warm")))
     try:
         eng = VariableElimination(bn)
+        if case.get("warm") and virt:
+            # the same engine has answered a query with ANOTHER likelihood on the same virtual-evidence variables
+            try:
+                eng.map_query([pn[v] for v in case["q"]], evidence=evidence or None, virtual_evidence=vcpds(1), show_progress=False)
+            except Exception:
+                pass
         if case.get("warm") and case["ev"]:
             # the engine has answered the same question for other evidence STATES before
             try:
@@ -90,7 +111,7 @@ def run_map(case, drv):
             except Exception:
                 pass
         res = eng.map_query([pn[v] for v in case["q"]], evidence=evidence or None,
-                            elimination_order=order, show_progress=False)
+                            elimination_order=order, show_progress=False, **vkw)
     except Exception as e:
         return fail(f"map_query raised {type(e).__name__}: {e}", **tags)
     err = check_assignment(res, case, m, names, card, labels, case["q"])
@@ -117,6 +138,27 @@ def connected(n, edges):
 
 
 def gen_bp(rng, tier):
+    if rng.random() < .4:
+        # a long chordless cycle in the moral graph: the triangulation needs cascaded fill-in edges
+        case = gen.rand_bn(rng, nmin=6, nmax=8, maxcard=2, name_kind=rng.choice(["str", "word", "int"]), mincard=2, shape="ring", dup=False,
+                           positive=True)
+        n = len(case["nodes"])
+        # strong couplings around the cycle and nearly balanced roots: the posterior modes hinge on small asymmetries, so beliefs
+        # that are slightly wrong (a clique tree without running intersection counts evidence twice) change the arg max
+        for c in case["cpds"]:
+            ncols = len(c["table"][0])
+            if c["parents"]:
+                cols = [rng.choice([Fraction(1, 10), Fraction(3, 20), Fraction(17, 20), Fraction(9, 10), Fraction(3, 10), Fraction(7, 10)])
+                        for _ in range(ncols)]
+            else:
+                cols = [Fraction(1, 2) + Fraction(rng.randint(-3, 3), 100)]
+            c["table"] = [[rs(a) for a in cols], [rs(1 - a) for a in cols]]
+        case["q"] = rng.sample(range(n), rng.randint(1, 3))
+        rest = [v for v in range(n) if v not in case["q"]]
+        case["ev"] = [[v, rng.randrange(case["card"][v])] for v in rng.sample(rest, rng.choice([0, 1, 2]))]
+        case["virt"] = []
+        case["warm"] = False
+        return case
     for _ in range(20):
         case = c01.gen_query(rng, tier)
         if connected(len(case["nodes"]), case["edges"]) and len(case["nodes"]) >= 2:
@@ -257,7 +299,7 @@ def run_mn(case, drv):
 
 STREAMS = [
     Stream("ve_map", gen_map, run_map, quick=1500, thorough=20000),
-    Stream("bp_map", gen_bp, run_bp, quick=400, thorough=5000),
+    Stream("bp_map", gen_bp, run_bp, quick=700, thorough=8000),
     Stream("predict", gen_predict, run_predict, quick=150, thorough=1500),
     Stream("mn_map", gen_mn, run_mn, quick=400, thorough=5000),
 ]
